@@ -425,6 +425,25 @@ pub fn explore_budget_exhausted() -> bool {
     over
 }
 
+/// Resident set size of this process in bytes (Linux), 0 if unknown.
+fn rss_bytes() -> u64 {
+    std::fs::read_to_string("/proc/self/statm").ok().and_then(|s| s.split_whitespace().nth(1).and_then(|p| p.parse::<u64>().ok())).map(|pages| pages * 4096).unwrap_or(0)
+}
+
+/// Memory cap of the explorations (same reasoning and same consequences as the wall budget): graphs that do not
+/// close grow until their state caps, and several of them are explored side by side.
+fn explore_memory_exhausted() -> bool {
+    static LIMIT: std::sync::OnceLock<u64> = std::sync::OnceLock::new();
+    let lim = *LIMIT.get_or_init(|| std::env::var("VERIF_RSS_LIMIT_GB").ok().and_then(|s| s.parse::<u64>().ok()).unwrap_or(16) * (1 << 30));
+    if rss_bytes() > lim {
+        EXPLORE_T0.get_or_init(std::time::Instant::now);
+        EXPLORE_DEADLINE_MS.store(0, Ordering::Relaxed);
+        EXPLORE_EXHAUSTED.store(true, Ordering::Relaxed);
+        return true;
+    }
+    false
+}
+
 pub fn explore<S: Sys>(init: S, lim: &Limits) -> Explored<S> {
     let mut seen: HashMap<String, u32> = HashMap::new();
     let mut nodes: Vec<Node<S::Act>> = Vec::new();
@@ -593,7 +612,7 @@ pub fn explore<S: Sys>(init: S, lim: &Limits) -> Explored<S> {
             }
         }
 
-        if nodes.len() as u64 > lim.max_states || EXPLORE_EXHAUSTED.load(Ordering::Relaxed) || (out.states % 64 == 0 && explore_budget_exhausted()) {
+        if nodes.len() as u64 > lim.max_states || EXPLORE_EXHAUSTED.load(Ordering::Relaxed) || (out.states % 64 == 0 && explore_budget_exhausted()) || (out.states % 4096 == 0 && explore_memory_exhausted()) {
             out.cap_hit = true;
             break;
         }
